@@ -157,6 +157,15 @@ def impl(case):
             outs.append({"count": len(c.get_edges("all", "all"))})
         elif k == "collect_edges":
             outs.append({"count": len(c.collect_edges())})
+        elif k == "sub_collect":
+            # a getter on a lower level of the hierarchy: self.circuits[p1].circuits[p2]....collect_edges() / get_edges('all', 'all')
+            try:
+                sub = c
+                for name in o[1].split("/"):
+                    sub = sub.circuits[name]
+                outs.append({"count": len(sub.collect_edges() if o[2] else sub.get_edges("all", "all"))})
+            except KeyError:
+                outs.append({"count": None})
         elif k == "collect_edges_delay":
             outs.append({"count": len(c.collect_edges(delay_info=True))})
         elif k == "derive_edit":
@@ -237,7 +246,7 @@ def pos8(rng):
 
 
 def gen_case(rng, maxlen):
-    depth = rng.choice([0, 0, 1, 1, 1, 2])
+    depth = rng.choice([0, 0, 1, 1, 1, 2, 2, 3])      # up to four template levels (top -> middle -> middle -> leaf -> nodes)
     oplist = ["op"] if rng.random() < 0.5 else ["op", "oq"]
     ops = []
     for n in oplist:
@@ -273,7 +282,7 @@ def gen_case(rng, maxlen):
         return any(len(e) > 3 for e in c_["edges"]) or (not c_["leaf"] and any(has_ref(jj) for _, jj in c_["children"]))
     def inner(level):
         kids, pool = [], []
-        for k in ["c1", "c2", "c3"][:rng.randint(1, 2) if level > 1 else rng.randint(2, 3)]:
+        for k in ["c1", "c2", "c3"][:(rng.randint(1, 2) if level > 1 else rng.randint(2, 3)) if depth < 3 else rng.randint(1, 2)]:
             # before fix D98 a sub-circuit object with a path-valued edge attribute that is registered under two names
             # cannot be compiled at all (its dictionary is prefixed once per name): shared only when the repair is in
             share = [j for j in pool if FIXED_98 or not has_ref(j)]
@@ -284,6 +293,11 @@ def gen_case(rng, maxlen):
                 pool.append(j); kids.append([k, j])
         circs.append(dict(leaf=False, children=kids, edges=[]))
         add_edges(len(circs) - 1, rng.randint(1, 3))
+        if rng.random() < 0.4:
+            # EVERY level may own an edge through the edge template whose second input is a variable path (a middle-level
+            # circuit owning such an edge between its sub-circuits is what collect_edges of the level above has to leave alone)
+            ns = ["/".join(p) for p, j in tree_nodes(tmp(), len(circs) - 1)]
+            circs[-1]["edges"].append([rng.choice(ns) + "/op/x", rng.choice(ns) + "/op/u", pos8(rng), rng.choice(ns) + "/op/x"])
         return len(circs) - 1
     if depth == 0:
         leaf()
@@ -314,7 +328,14 @@ def gen_case(rng, maxlen):
         elif r < 0.28 and depth == 0:
             seq.append(["getitem", rng.choice(names)])
         elif r < 0.38:
-            seq.append([rng.choice(["get_edges", "collect_edges", "collect_edges_delay"])])
+            if depth >= 1 and rng.random() < 0.45:
+                # the getter on a sub-circuit of any level (a prefix of a node path), rarely on a name that does not exist
+                p = list(rng.choice(allnodes)[0])[:rng.randint(1, depth)]
+                if rng.random() < 0.06:
+                    p[-1] = "c9"
+                seq.append(["sub_collect", "/".join(p), rng.random() < 0.5])
+            else:
+                seq.append([rng.choice(["get_edges", "collect_edges", "collect_edges_delay"])])
         elif r < 0.44:
             es = circs[root]["edges"]
             e = rng.choice(es) if es and rng.random() < 0.85 else ["A/op/x", "Z/op/u", "1"]
@@ -428,6 +449,9 @@ def coq_case(case, outs):
             pys.append("PDone'" if r == "done" else "PRaised'")
         elif k in ("op_update", "load_derived", "op_update_vars"):
             ops.append(f"MNewObject (OOp {cstr(o[1] + '_derived')} [] [])"); pys.append("PDone'")
+        elif k == "sub_collect":
+            ops.append(f"MSubEdges {cpath(o[1])}")
+            pys.append("PEdgeCount None" if r["count"] is None else f"PEdgeCount (Some {cnat(r['count'])})")
         elif k in ("get_edges", "collect_edges", "collect_edges_delay"):
             ops.append("MRead QEdges"); pys.append(f"PEdgeCount (Some {cnat(r['count'])})")
         elif k == "get_edge":
@@ -548,9 +572,9 @@ def check(ctx):
         for o in c["seq"]:
             kinds[o[0]] = kinds.get(o[0], 0) + 1
     write_evidence(ctx, evaluations=len(cases), distinct_nontrivial=len(nt),
-                   rule="random sequences of get_nodes / get_node_template / __getitem__ / get_edges / collect_edges (also delay_info=True) / get_edge / to_yaml / "
-                        "deepcopy / update_template(edges) / derive-and-edit (update_template(nodes|circuits) without edges, then an edge update on the derived template) / OperatorTemplate.update_template(equations) / loading a derived template (base: chain) from YAML / get_run_func / get_jacobian_func / run (in_place=False, both vectorize settings, with and without extrinsic inputs) on templates of depth 0-2 "
-                        "with one OperatorTemplate object per name (constants partly declared in explicit dict form), shared NodeTemplate objects, per-node overrides and (20%) shared sub-circuit objects; "
+                   rule="random sequences of get_nodes / get_node_template / __getitem__ / get_edges / collect_edges (also delay_info=True; on the template and on its sub-circuits of every level) / get_edge / to_yaml / "
+                        "deepcopy / update_template(edges) / derive-and-edit (update_template(nodes|circuits) without edges, then an edge update on the derived template) / OperatorTemplate.update_template(equations) / loading a derived template (base: chain) from YAML / get_run_func / get_jacobian_func / run (in_place=False, both vectorize settings, with and without extrinsic inputs) on templates of depth 0-3 "
+                        "with one OperatorTemplate object per name (constants partly declared in explicit dict form), shared NodeTemplate objects, per-node overrides, (20%) shared sub-circuit objects and, on EVERY level of the hierarchy, edges through an edge template with a path-valued attribute; "
                         "the template is measured (deep copy with cleared bookkeeping: parameter values, declared initial values, edge sums, to_yaml text, "
                         "own edge count) before, between and after; non-trivial = >= 2 operations and (a shared object or a hierarchy); distinct = canonical JSON",
                    samples=[dict(cases[-1], seq=cases[-1]["seq"][:6])] if cases else [],
